@@ -17,6 +17,8 @@
 package main
 
 import (
+	"github.com/thushan/olla/internal/util"
+	"net/http/httptest"
 	"bufio"
 	"bytes"
 	"context"
@@ -705,6 +707,27 @@ func main() {
 		mu.Lock()
 		outs = append(outs, emitted{order, m, bucket})
 		mu.Unlock()
+	}
+	// the bucket key of a connection: the same client address on different source ports (different TCP connections) is one
+	// client, however the address is written — IPv4, IPv6, IPv4-mapped IPv6, IPv6 with a zone (link-local peers)
+	if vlib.ReplayPath() == "" {
+		hosts := []string{"192.0.2.7", "10.1.2.3", "::1", "2001:db8::7", "::ffff:192.0.2.9", "fe80::1%eth0", "fe80::dead:beef%en0", "fe80::1%25eth0", "2001:db8:0:0:0:0:0:7"}
+		for hi, h := range hosts {
+			hi, h := hi, h
+			jobs = append(jobs, func() {
+				var keys []string
+				for _, port := range []string{"40001", "40002", "55555"} {
+					ra := h + ":" + port
+					if strings.Contains(h, ":") {
+						ra = "[" + h + "]:" + port
+					}
+					req := httptest.NewRequest("POST", "/olla/proxy/v1/chat/completions", nil)
+					req.RemoteAddr = ra
+					keys = append(keys, util.GetClientIP(req, false, nil))
+				}
+				add(-1000+hi, "key", map[string]any{"kind": "key", "host": h, "impl": map[string]any{"keys": keys}})
+			})
+		}
 	}
 	for i := range chains {
 		i := i
